@@ -83,6 +83,7 @@ Variable cert_round : Cert -> N.            (* cert.Round *)
 Variable contents_ok : Block -> bool.       (* block.ContentsMatchHeader() *)
 Variable proto_supported : Block -> bool.   (* _, ok := config.Consensus[block.CurrentProtocol] *)
 Variable authenticate : Block -> Cert -> bool.   (* s.auth.Authenticate(block, cert) == nil *)
+Variable blk_digest : Block -> N.           (* block.Hash() (header digest); only used by fetchRound *)
 
 (* what the peer sends back for one request, before processBlockBytes looks at it *)
 Inductive resp :=
@@ -341,6 +342,58 @@ Fixpoint run (st : state) (ls : list label) : option state :=
   end.
 
 End Step.
+(* ---- fetchRound(cert, verifier) (via syncCert): agreement holds a certificate for round [cround]
+   committing to digest [cdigest] but not the block; catchup fetches that one block and hands it
+   to ledger.EnsureBlock together with agreement's certificate.  No configuration switch here. *)
+Inductive fr_pc := FRTop | FRFetch (p : N) | FRDone | FRPanic.
+Inductive fr_event := FRFetched (p : N) (rs : resp) | FREnsure (b : Block).
+Record fr_state := mkFR { fr_p : fr_pc; fr_latest : N; fr_trace : list fr_event }.
+Record fr_input := mkFRIn {
+  fri_cancel : bool;      (* s.ctx is done when polled *)
+  fri_peer : option N;    (* ps.getNextPeer() *)
+  fri_pre_has : bool;     (* innerFetch: the ledger already has the round (possible only if cround <= latest) *)
+  fri_resp : resp }.
+Inductive fr_label := FRW (i : fr_input) | FRExt.   (* FRExt: somebody else appends a block *)
+
+Definition fr_init (lat0 : N) : fr_state := mkFR FRTop lat0 [].
+
+Definition fr_step (cround cdigest : N) (st : fr_state) (l : fr_label) : option fr_state :=
+  match l with
+  | FRExt => Some (mkFR (fr_p st) (fr_latest st + 1) (fr_trace st))
+  | FRW i =>
+      match fr_p st with
+      | FRDone | FRPanic => None
+      | FRTop =>
+          if cround <=? fr_latest st then Some (mkFR FRDone (fr_latest st) (fr_trace st))   (* loop condition *)
+          else match fri_peer i with
+               | None => if fri_cancel i then Some (mkFR FRDone (fr_latest st) (fr_trace st))
+                         else Some st                               (* RequestConnectOutgoing; continue *)
+               | Some p => Some (mkFR (FRFetch p) (fr_latest st) (fr_trace st))
+               end
+      | FRFetch p =>
+          if fri_pre_has i then
+            (if cround <=? fr_latest st then
+               Some (mkFR (if fri_cancel i then FRDone else FRTop) (fr_latest st) (fr_trace st))
+             else None)
+          else
+            let tr := FRFetched p (fri_resp i) :: fr_trace st in
+            match process cround (fri_resp i) with
+            | FErr _ => Some (mkFR (if fri_cancel i then FRDone else FRTop) (fr_latest st) tr)
+            | FNil => Some (mkFR FRPanic (fr_latest st) tr)     (* block.Hash() on a nil block; universalFetcher never returns (nil, nil, nil) *)
+            | FPair b c =>
+                if (blk_digest b =? cdigest) && contents_ok b
+                then Some (mkFR FRDone (fr_latest st) (FREnsure b :: tr))   (* s.ledger.EnsureBlock(block, cert); return *)
+                else Some (mkFR FRTop (fr_latest st) tr)                    (* "fetcher gave us bad/wrong block": rank, (fork alarm), retry *)
+            end
+      end
+  end.
+
+Fixpoint fr_run (cround cdigest : N) (st : fr_state) (ls : list fr_label) : option fr_state :=
+  match ls with
+  | [] => Some st
+  | l :: t => match fr_step cround cdigest st l with Some st' => fr_run cround cdigest st' t | None => None end
+  end.
+
 End Catchup.
 
 Arguments RespErr {Block Cert}.
@@ -412,3 +465,19 @@ Arguments ctx_done {Block Cert}.
 Arguments step {Block Cert}.
 Arguments run {Block Cert}.
 Arguments init {Block Cert}.
+Arguments FRFetched {Block Cert}.
+Arguments FREnsure {Block Cert}.
+Arguments mkFR {Block Cert}.
+Arguments fr_p {Block Cert}.
+Arguments fr_latest {Block Cert}.
+Arguments fr_trace {Block Cert}.
+Arguments mkFRIn {Block Cert}.
+Arguments fri_cancel {Block Cert}.
+Arguments fri_peer {Block Cert}.
+Arguments fri_pre_has {Block Cert}.
+Arguments fri_resp {Block Cert}.
+Arguments FRW {Block Cert}.
+Arguments FRExt {Block Cert}.
+Arguments fr_init {Block Cert}.
+Arguments fr_step {Block Cert}.
+Arguments fr_run {Block Cert}.
